@@ -208,6 +208,12 @@ func RandomWorld(r *fw.Rand, o WorldOpts) World {
 		}
 		w.Registry = append(w.Registry, rp)
 	}
+	// the same module path offered by two registry hosts, each with its own
+	// version list: the host is part of a registry package's identity
+	if len(w.Registry) >= 2 && r.Chance(1, 4) {
+		w.Registry[0].Addr = "example.com/ns/m0/sys"
+		w.Registry[1].Addr = "テラフォーム.example.com/ns/m0/sys"
+	}
 	// dependency declarations per distinct content
 	declared := map[int]map[string][]Dep{}
 	for i := range w.Remotes {
